@@ -58,7 +58,7 @@ def run_lex(v, exe, cfglist, seed, tag):
 def check_C01(tier, seed):
     v = Verdict("C01", tier, seed)
     exe = build_driver("asan")
-    for c in cfgs(tier, ["C01_quick.cfg", "C01_nocase_titles.cfg", "C01_lists.cfg", "C01_drop.cfg"], ["C01_len7.cfg", "C01_two_parses.cfg"]):
+    for c in cfgs(tier, ["C01_quick.cfg", "C01_nocase_titles.cfg", "C01_lists.cfg", "C01_drop.cfg", "C01_simple.cfg"], ["C01_len7.cfg", "C01_two_parses.cfg"]):
         res = tlc_parse(v, c, INV_PARSE)
         # canonical and seeded varied rendering through cfg_parse_buf; the same bytes through cfg_parse_fp
         # (a stream) and cfg_parse (a file) must give the same result
@@ -185,7 +185,7 @@ def check_C07(tier, seed):
 def check_C09(tier, seed):
     v = Verdict("C09", tier, seed)
     exe = build_driver("asan")
-    for c in cfgs(tier, ["api_quick.cfg", "api_nopre_quick.cfg"], ["api_thorough.cfg"]):
+    for c in cfgs(tier, ["api_quick.cfg", "api_nopre_quick.cfg", "simple_quick.cfg"], ["api_thorough.cfg"]):
         res = tlc_api(v, c)
         apicheck.replay(v, exe, res, aspects={"tree", "freed", "balance"}, seed=seed, tag="C09")
         if c == "api_nopre_quick.cfg":
@@ -205,7 +205,7 @@ def check_C09(tier, seed):
 def check_C10(tier, seed):
     v = Verdict("C10", tier, seed)
     exe = build_driver("asan")
-    for c in cfgs(tier, ["api_quick.cfg", "api_nopre_quick.cfg", "api_veto_quick.cfg"], ["api_thorough.cfg"]):
+    for c in cfgs(tier, ["api_quick.cfg", "api_nopre_quick.cfg", "api_veto_quick.cfg", "simple_quick.cfg"], ["api_thorough.cfg"]):
         res = tlc_api(v, c)
         # keep only behaviours whose last call is refused: that is the call under test
         res.behaviours = [b for b in res.behaviours if b["calls"][-1]["exp"]["ret"] == "fail"]
@@ -237,12 +237,12 @@ def check_C19(tier, seed):
 def check_C05(tier, seed):
     v = Verdict("C05", tier, seed)
     exe = build_driver("asan")
-    for c in (["rt_quick.cfg", "rt_nopre_quick.cfg"] if tier == "quick" else ["rt_thorough.cfg", "rt_nopre_thorough.cfg"]):
+    for c in (["rt_quick.cfg", "rt_nopre_quick.cfg", "simple_quick.cfg"] if tier == "quick" else ["rt_thorough.cfg", "rt_nopre_thorough.cfg", "simple_quick.cfg"]):
         res = run_tlc("MC_Api.tla", os.path.join("mc", c))
         v.add_tlc(c, res, ["P_C05_RoundTrip"] + PROPS_API)
         apicheck.replay(v, exe, res, aspects={"roundtrip"}, seed=seed, tag="C05", sigprefix="rt")
     # states reached by parsing (consecutive list assignments, emptied lists, repeated titles): print -> parse -> compare
-    for c in cfgs(tier, ["C01_lists.cfg", "C05_parse_quick.cfg"], []):
+    for c in cfgs(tier, ["C01_lists.cfg", "C05_parse_quick.cfg", "C01_simple.cfg"], []):
         res = tlc_parse(v, c, INV_PARSE)
         res.behaviours = [b for b in res.behaviours if b["parses"][-1]["exp"]["status"] == "ok"]
         parsecheck.replay(v, exe, res, aspects={"roundtrip"}, seed=seed, renderings=("canonical",), tag="C05p")
